@@ -144,7 +144,7 @@ _p("C20", "CrossHair/z3 symbolic execution of SymlinkNode attribute forwarding (
    "4 nodes, 3-step interleavings",
    ["attribute names that are class attributes of the link's class (separator, path, is_leaf ...: the link's own by Python's lookup rules)", "attribute deletion", "SymlinkNodeMixin subclasses other than SymlinkNode"], COMMON_ASSUME)
 
-MUT_OUT = ["more nodes than the bound", "hooks that themselves mutate the tree (re-entrancy)", "concurrent mutation",
+MUT_OUT = ["more nodes than the bound", "hooks that mutate the tree in other ways than the one re-entrant pattern checked (a _pre_attach hook detaching a child of the new parent)", "concurrent mutation",
            "iterables with side effects while being consumed by children="]
 
 _p("C01", "CrossHair/z3: one symbolic call with a symbolic hook-fault schedule from every valid forest (inductive step for the C01 invariant)",
@@ -278,9 +278,8 @@ def obligations(prop, tier):
         out.append(_mut("lockstep_valuesem", "c18_body", {"N": N, "L": 2, "faults": "none", "mixcls": "mixin_eq", "lightcls": "light_eq"}, depth=5,
                         bounds="N<=%d, no faults, node classes whose instances all compare equal, are empty and falsy" % N))
     elif prop == "C04":
-        if not q:
-            out.append(dict(name="nav7_mixin", module="harness.navigate", body="c04_body", cfg={"cls": "mixin", "N": 7, "move": False, "single_tree7": True}, depth=6, bounds="N<=7 (single trees), no mutation",
-                            picked="n, parent vector", symbolic="-"))
+        out.append(dict(name="nav7_mixin", module="harness.navigate", body="c04_body", cfg={"cls": "mixin", "N": 7, "move": False, "single_tree7": True}, depth=6, bounds="N<=7 (single trees), no mutation",
+                        picked="n, parent vector", symbolic="-"))
         out.append(dict(name="nav_light_eq", module="harness.navigate", body="c04_body", cfg={"cls": "light_eq", "N": 4 if q else 5, "move": False}, depth=4, bounds="N<=%d, LightNodeMixin class with value/container semantics" % (4 if q else 5),
                         picked="n, parent vector (forest)", symbolic="-"))
         out.append(dict(name="nav_mixin_eq", module="harness.navigate", body="c04_body", cfg={"cls": "mixin_eq", "N": 4 if q else 5, "move": False}, depth=4, bounds="N<=%d, all-equal node class" % (4 if q else 5),
